@@ -17,4 +17,9 @@ def backOff (round max : Nat) : Nat :=
   let base := failureWait * 2 ^ (power - 2)
   if base > max then max else base
 
+/-- util.go `durationFor(bandwidth, n)`: the time `n` bytes need at `bandwidth` bytes per second, in nanoseconds. The Go
+function computes `1e9 * (float64(n) / float64(bandwidth))` in floating point and truncates; this is the exact rational value
+truncated. The repldiff correspondence compares them up to the floating-point rounding error (relative 2⁻⁴⁰, absolute 1 ns). -/
+def durationFor (bandwidth n : Nat) : Nat := n * 1000000000 / bandwidth
+
 end Raft.Timing
